@@ -136,6 +136,7 @@ class Inliner:
             if b.get("parent"):
                 self.children.setdefault(b["parent"], []).append(b["def"])
         self.counter = 0
+        self.spliced = set()
         self.log = []
         self.cand = self._candidates()
 
@@ -214,6 +215,8 @@ class Inliner:
         kind, x, blk = defs[0]
         if kind == "assign":
             rv = x
+            if rv.get("agg") == "coroutine":
+                return ("agg", rv, blk)
             if "use" in rv:
                 return self._chase_future(body, rv["use"], depth + 1)
             if "ref" in rv:
@@ -318,23 +321,29 @@ class Inliner:
             return None            # the outer fn does more than build the future (e.g. an instrumented wrapper)
         return found["def"], params
 
-    def _inline_async(self, caller, p, creator_blk, outer, cor, params):
-        """Splices coroutine body `cor` at poll block p of `caller`."""
+    def _inline_async(self, caller, p, agg_rv, agg_blk, cor):
+        """Splices coroutine body `cor` (created by the aggregate `agg_rv` in this body) at poll block p of `caller`."""
         pblk = caller["blocks"][p]
         pt = pblk["term"]
-        ct = creator_blk["term"]
         span = pt["span"]
-        # upvar locals
+        # upvar locals, bound where the coroutine value was built (no coroutine object any more)
         up = {}
-        for i, pi in enumerate(params):
-            uv = cor.get("upvars") or []
-            caller["locals"].append({"ty": outer["locals"][pi + 1]["ty"], "name": uv[i].get("name") if i < len(uv) else outer["locals"][pi + 1].get("name"),
-                                     "span": outer["locals"][pi + 1].get("span", ct["span"]), "inl": outer["def"]})
+        uv = cor.get("upvars") or []
+        idx = None
+        for j, st in enumerate(agg_blk["stmts"]):
+            if st["k"] == "assign" and st["rv"] is agg_rv:
+                idx = j
+        if idx is None:
+            return []
+        aspan = agg_blk["stmts"][idx]["span"]
+        binds = []
+        for i, o in enumerate(agg_rv["ops"]):
+            pl = o.get("move") or o.get("copy")
+            ty = caller["locals"][pl["l"]]["ty"] if pl is not None and not pl["p"] else (caller["locals"][pl["l"]]["ty"] if pl is not None else 0)
+            caller["locals"].append({"ty": ty, "name": uv[i].get("name") if i < len(uv) else None, "span": aspan, "inl": cor["def"]})
             up[i] = len(caller["locals"]) - 1
-        # the creating call: bind the upvars, no coroutine object
-        for i, pi in enumerate(params):
-            creator_blk["stmts"].append({"k": "assign", "place": {"l": up[i], "p": []}, "rv": {"use": ct["args"][pi]}, "span": ct["span"]})
-        creator_blk["term"] = {"k": "goto", "target": ct["target"], "span": ct["span"], "inlined": outer["def"]}
+            binds.append({"k": "assign", "place": {"l": up[i], "p": []}, "rv": {"use": o}, "span": aspan})
+        agg_blk["stmts"][idx:idx + 1] = binds
         # locate the caller's Ready arm and the drop target of its pending yield
         ready, pend_drop = None, None
         nxt = caller["blocks"][pt["target"]] if pt.get("target") is not None else None
@@ -369,6 +378,7 @@ class Inliner:
                 # drop of the coroutine object itself: its upvars are separate locals now
                 b["term"] = {"k": "goto", "target": tt["target"], "span": tt["span"]}
         pblk["term"] = {"k": "goto", "target": bbase, "span": span, "inlined": cor["def"]}
+        self.spliced.add(cor["def"])
         return newb
 
     def _blank_unreachable(self, body):
@@ -409,22 +419,22 @@ class Inliner:
                     if t["k"] == "call" and t.get("fn"):
                         fn = t["fn"]
                         cd = fn["def"]
-                        # ordinary helper
-                        if cd in self.cand and cd != body["def"] and body.get("root") != cd and not self.fns[cd].get("async") and cd in self.raw \
-                                and self.raw[cd].get("coroutine_kind") is None and len(t["args"]) == self.raw[cd]["arg_count"]:
+                        # helper fn (for an `async fn` helper this puts `coroutine[helper::{closure#0}@k](args)` - i.e. the
+                        # equivalent `async move {}` block - into the caller; the await is spliced below)
+                        if cd in self.cand and cd != body["def"] and body.get("root") != cd and cd in self.raw \
+                                and self.raw[cd].get("coroutine_kind") is None and len(t["args"]) == self.raw[cd]["arg_count"] \
+                                and (not self.fns[cd].get("async") or self._coroutine_ctor(self.raw[cd]) is not None):
                             extra += self._inline_sync(body, i, self.raw[cd])
-                            self.log.append((body["def"], cd, "sync"))
+                            self.log.append((body["def"], cd, "async-ctor" if self.fns[cd].get("async") else "sync"))
                             touched = changed = True
-                        # await of an async helper
-                        elif fn.get("name") == "poll" and (fn.get("resolved") or {}).get("def"):
+                        # await of a future built in this body from an inlined async helper
+                        elif fn.get("name") == "poll" and (fn.get("resolved") or {}).get("def") and t["args"]:
                             rd = fn["resolved"]["def"]
                             outer_def = self.raw.get(rd, {}).get("parent") if rd in self.raw else None
-                            if outer_def in self.cand and self.fns.get(outer_def, {}).get("async") and outer_def != body.get("root") and outer_def != body["def"]:
-                                creator = self._chase_future(body, t["args"][0]) if t["args"] else None
-                                ctor = self._coroutine_ctor(self.raw[outer_def])
-                                if creator is not None and ctor is not None and ctor[0] == rd and creator["term"]["k"] == "call" and \
-                                        (creator["term"].get("fn") or {}).get("def") == outer_def and len(creator["term"]["args"]) == self.raw[outer_def]["arg_count"]:
-                                    extra += self._inline_async(body, i, creator, self.raw[outer_def], self.raw[rd], ctor[1])
+                            if outer_def in self.cand and self.fns.get(outer_def, {}).get("async"):
+                                found = self._chase_future(body, t["args"][0])
+                                if isinstance(found, tuple) and found[0] == "agg" and self.raw.get(found[1]["def"], {}).get("inlined_from") == rd:
+                                    extra += self._inline_async(body, i, found[1], found[2], self.raw[found[1]["def"]])
                                     self.log.append((body["def"], outer_def, "async"))
                                     touched = changed = True
                     i += 1
@@ -463,6 +473,10 @@ class Inliner:
                 if not any(tgt in fam and own not in fam and own not in removed for own, tgt in refs):
                     removed |= fam
                     changed = True
+        allrefs = {tgt for own, tgt in refs}
+        for b in bodies:
+            if b["def"] in self.spliced and b["def"] not in allrefs:
+                removed |= set(self._family(b["def"]))
         self.d["bodies"] = [b for b in bodies if b["def"] not in removed]
         self.removed = removed
         return self.log
